@@ -358,6 +358,9 @@ where
         let (write_half, read_half) = Self::split_stream(stream);
         self.write_half = write_half;
         self.read_half = read_half;
+
+        // Replies now arrive on the new stream, so they have to be read from it
+        poll_replies(self.read_half.clone(), self.pending_requests.clone());
     }
 
     fn get_connection(&self) -> SharedConnection {
